@@ -157,6 +157,31 @@ func (h *hist) freshID() string {
 
 func (h *hist) badID() string {
 	r := h.r
+	// every second illegal id is an ALIAS SPELLING of an id that exists (or was rolled back earlier): surrounding
+	// blanks, another letter case - illegal as written, and dangerous if any layer folds it onto the stored id
+	if pool := append(append([]string{}, h.ids...), h.ghosts...); len(pool) > 0 && r.Intn(2) == 0 {
+		id := pick(r, pool)
+		switch r.Intn(6) {
+		case 0:
+			return id + " "
+		case 1:
+			return " " + id
+		case 2:
+			return id + "\n"
+		case 3:
+			return "\t" + id
+		case 4:
+			if up := strings.ToUpper(id); up != id {
+				return up
+			}
+			return id + " "
+		default:
+			if len(id) > 0 && id[0] >= 'a' && id[0] <= 'z' {
+				return strings.ToUpper(id[:1]) + id[1:]
+			}
+			return " " + id + " "
+		}
+	}
 	switch r.Intn(7) {
 	case 0:
 		return ""
@@ -206,7 +231,7 @@ func (h *hist) genCreateClass(path string, exclude map[string]bool, class string
 	req := request{Kind: "create", Path: path, ChainType: "evm"}
 	req.Caller = h.pickCaller(path, exclude)
 	h.delegateSigner(&req, exclude)
-	req.Class = wpick(r, []string{"new", "dup", "badid", "badpayload", "badchaintype"}, []int{62, 26, 5, 4, 3})
+	req.Class = wpick(r, []string{"new", "dup", "badid", "badpayload", "badchaintype"}, []int{58, 24, 11, 4, 3})
 	if req.Class == "dup" && len(h.ids) == 0 {
 		req.Class = "new"
 	}
